@@ -31,4 +31,4 @@ def run(res, only=None):
 
 
 def replay(res, path, only=None):
-    return core.generic_replay(res, path, "safe", env_keys=())
+    return core.replay_dispatch(res, path, "safe", env_keys=())
